@@ -50,15 +50,15 @@ type RCase struct {
 	Seq   []RDelivery `json:"seq"`
 }
 type RLine struct {
-	Phase    string          `json:"phase"`
-	Step     int             `json:"step"`
-	Tmpl     string          `json:"tmpl"`
-	Muts     []string        `json:"muts"`
-	Outcome  string          `json:"outcome"` // returned | panicked | hung
-	Frame    string          `json:"frame"`   // top spine-go function of the panic
-	Served   map[string]bool `json:"served"`  // follow-up discovery read answered, per connected peer
-	AllServed bool           `json:"allserved"`
-	Case     json.RawMessage `json:"case"`
+	Phase     string          `json:"phase"`
+	Step      int             `json:"step"`
+	Tmpl      string          `json:"tmpl"`
+	Muts      []string        `json:"muts"`
+	Outcome   string          `json:"outcome"` // returned | panicked | hung
+	Frame     string          `json:"frame"`   // top spine-go function of the panic
+	Served    map[string]bool `json:"served"`  // follow-up discovery read answered, per connected peer
+	AllServed bool            `json:"allserved"`
+	Case      json.RawMessage `json:"case"`
 }
 
 var robustTemplates = []string{"discReply", "discNotifyAdd", "discNotifyRemove", "discNotifyFull", "subRequest", "subDelete", "bindRequest", "bindDelete",
